@@ -181,7 +181,10 @@ def snapshot():
     snap = {'classes': [_class_sig(c) for c in _tracked()],
             'scalar_type_to_tag': _table_sig(
                 yatiml.util.scalar_type_to_tag),
-            'user': [sorted(c.__dict__) for c in (PD, PS, QD, QS)]}
+            # __slotnames__ is copyreg's cache on the class (written by
+            # copy/pickle machinery, e.g. the engine's own deep copies)
+            'user': [sorted(k for k in c.__dict__ if k != '__slotnames__')
+                     for c in (PD, PS, QD, QS)]}
     return snap
 
 
@@ -268,6 +271,9 @@ def histories2(o1: int, o2: int) -> bool:
     pre: 0 <= o1 < 20 and 0 <= o2 < 20
     post: __return__
     """
+    s = slice_no(-1)
+    if s >= 0 and o1 != s:
+        return True
     return _history(2, o1, o2, 0, 0)
 
 
@@ -276,12 +282,15 @@ def histories_reach(o1: int, o2: int) -> bool:
     pre: 0 <= o1 < 20 and 0 <= o2 < 20
     post: __return__
     """
+    if o1 != 14:
+        return True
     ok = _history(2, o1, o2, 0, 0)
     return not (ok and o1 == 14 and o2 == 1)
 
 
 CONDITIONS = [
-    {'fn': 'histories2', 'quick': 110, 'thorough': None,
+    {'fn': 'histories2', 'slices': list(range(20)), 'quick': 110,
+     'thorough': None,
      'bound': 'all 400 histories of 2 operations out of 20: snapshot of every '
               'PyYAML/yatiml class-level registry, of the long-lived '
               'functions\' classes and of the user classes unchanged after '
